@@ -1,5 +1,6 @@
 import Generated.C06Flow
 import Generated.C06Facts
+import Generated.C06Wake
 import Req.H2.Flow
 import Req.H2.Conn
 /-!
@@ -154,5 +155,19 @@ theorem frameScratchBufferLen_eq (cl maxFrameSize : Int)
     Generated.C06Facts.frameScratchBufferLen cl maxFrameSize = Conn.scratchLen cl maxFrameSize := by
   unfold Generated.C06Facts.frameScratchBufferLen Conn.scratchLen wrap64
   flow_bridge
+
+/-! ### the condition variable (wake-up discipline, `Req.Props.C06.no_lost_wakeup`) -/
+
+/-- a ClientConn's condition variable is only ever *broadcast*: every sleeper looks again at
+every wake-up, which is what the model's `wakes` / `resumePending` assume (a `Signal` would wake
+one sleeper, not necessarily the one whose condition became true) -/
+theorem cond_broadcast_only : Generated.C06Wake.condSignalUses = 0 := rfl
+
+/-- who sleeps on it -/
+theorem cond_waiters : Generated.C06Wake.condWaiters = Req.H2.Conn.condWaiters := rfl
+
+/-- every handler the wake-up table relies on reaches a `cond.Broadcast()` -/
+theorem wake_sites_broadcast :
+    Generated.C06Wake.broadcastSites = Req.H2.Conn.wakeSites.map (fun s => (s, true)) := by decide
 
 end Bridge.C06
